@@ -41,7 +41,7 @@ class CoreHarness(Harness):
                  read_time=4, write_time=4, cl=2, cwl=None, RL=2, WL=0, K=2, window=0,
                  watch=None, banks=(0, 1), rows=(0, 1), cols=(0,), wes=None, queue_check=True, timing_mon=False,
                  refresh_mon=False, drivers=None, tzqcs=None, zqcs_period=None, rdphase=None, wrphase=None,
-                 req=None, settle=14, wr_only=False, zq_mon=False, rd_only=False, port_width=None, chunks=None, last_always=True)
+                 req=None, settle=14, wr_only=False, zq_mon=False, rd_only=False, port_width=None, chunks=None, last_always=True, phase_signals=False)
         d.update(cfg); self.cfg = d
         for k, v in d.items(): setattr(self, k, v)
         nph = self.nphases
@@ -68,7 +68,7 @@ class CoreHarness(Harness):
                                      auto_precharge=self.ap, postponing=self.postponing, timing=timing, read_time=self.read_time,
                                      write_time=self.write_time, cl=self.cl, cwl=self.cwl, rdphase=rdphase, wrphase=wrphase,
                                      read_latency=self.RL, write_latency=self.WL, nranks=self.nranks, with_refresh=self.refresh,
-                                     port_kwargs=(dict(data_width=self.port_width) if self.port_width else None), **zq)
+                                     port_kwargs=(dict(data_width=self.port_width) if self.port_width else None), phase_signals=self.phase_signals, **zq)
         self.T = core.timing
         self.trefi = self.T.tREFI
         ports = self.ports = core.ports
@@ -402,6 +402,10 @@ class CoreHarness(Harness):
                 saw_ref = True
                 if len(sel) != self.nranks: raise Violation("dfi.rank_select", "REF does not select all ranks (cs_n=%s)" % bin(cs_n), cmd="REF")
                 if any(r != -1 for r in rows): raise Violation("dram.ref_open_bank", "REF with open bank(s) %s" % [i for i, r in enumerate(rows) if r != -1], cmd="REF")
+                if self.memtype in ("LPDDR4", "LPDDR5") and not (adr >> 10) & 1:
+                    # the LPDDR4/LPDDR5 PHYs translate DFI REF with A10 low into a PER-BANK refresh of the bank on the bank lines: the other banks
+                    # are then never refreshed (for the other memory types A10 is a don't-care on REF and is not judged)
+                    self.report("refresh.per_bank_only", "REF with A10 low on %s: the PHY emits a per-bank refresh, the all-bank refresh rate is zero" % self.memtype, cmd="REF")
                 if newage is not None: self._t_ref(agesd, newage, ph)
                 cov["REF"] = cov.get("REF", 0) + 1
             elif ras_n and cas_n and not we_n:                                 # ZQCS (ras=1 cas=1 we=0)
